@@ -1,4 +1,5 @@
 import Ccp.Proofs.TreeForest
+import Ccp.Proofs.TreeStored
 import Ccp.Proofs.TreeBanner
 /-!
 # C03 — family relations form a consistent forest
@@ -304,6 +305,128 @@ example : siblings (parse exCfg exDeep) 1 = [1, 4] := by decide
 example : IsAncestor (parse exCfg exDeep) 0 3 :=
   ((ancestors_spec (parse_forest exCfg exDeep) 3).1 0).mp (by decide +kernel)
 
+/-! ## the STORED child lists
+
+`Ccp.TreeStored.parse` runs the same four passes as `parse` over a state that also holds,
+for every line, the child list the implementation stores, and performs on those lists
+exactly the list operations of `_add_child_to_parent` (append) and `_reparent_child`
+(remove from the former parent's list, append if absent, sort by line number). -/
+
+/-- **(a) same parents.**  For every option set and every line list, forgetting the stored
+child lists of the stored-list parse leaves exactly the result of `parse` — the same texts,
+the same parent index for every line, the same `blank_line_keep` flags. -/
+theorem stored_parents_eq (cfg : Cfg) (ls : List Str) :
+    (Ccp.TreeStored.parse cfg ls).parents = (parse cfg ls).parents ∧
+    (Ccp.TreeStored.parse cfg ls).toT = parse cfg ls :=
+  ⟨congrArg T.parents (Ccp.TreeStored.parse_toT cfg ls), Ccp.TreeStored.parse_toT cfg ls⟩
+
+/-- **(b) stored = derived.**  For every option set and every line list, after the
+stored-list parse the stored child list of EVERY index `p` is the derived child list of
+`parse`; as a table: one stored list per line, equal to the derived list of that line. -/
+theorem stored_children_eq_derived (cfg : Cfg) (ls : List Str) :
+    (∀ p, (Ccp.TreeStored.parse cfg ls).stored p = children (parse cfg ls) p) ∧
+    (Ccp.TreeStored.parse cfg ls).children =
+      (List.range (parse cfg ls).size).map (children (parse cfg ls)) := by
+  have h := Ccp.TreeStored.goodS_parse cfg ls
+  constructor
+  · intro p
+    rw [Ccp.TreeStored.stored_eq_children h p, Ccp.TreeStored.parse_toT]
+  · rw [Ccp.TreeStored.children_eq_map h, Ccp.TreeStored.parse_toT]
+
+/-- The same two statements for a single `ConfigList.bootstrap` (what `commit()` re-runs,
+including the `ignore_blank_lines` rebuild) and for passes 1–3 on their own. -/
+theorem stored_bootstrap_eq_derived (cfg : Cfg) (ls : List Str) :
+    ((Ccp.TreeStored.bootstrap cfg ls).toT = bootstrap cfg ls ∧
+      ∀ p, (Ccp.TreeStored.bootstrap cfg ls).stored p = children (bootstrap cfg ls) p) ∧
+    ((Ccp.TreeStored.link cfg ls).toT = link cfg ls ∧
+      ∀ p, (Ccp.TreeStored.link cfg ls).stored p = children (link cfg ls) p) := by
+  refine ⟨⟨Ccp.TreeStored.bootstrap_toT cfg ls, fun p => ?_⟩, ⟨Ccp.TreeStored.link_toT cfg ls, fun p => ?_⟩⟩
+  · rw [Ccp.TreeStored.stored_eq_children (Ccp.TreeStored.goodS_bootstrap cfg ls) p, Ccp.TreeStored.bootstrap_toT]
+  · rw [Ccp.TreeStored.stored_eq_children (Ccp.TreeStored.goodS_link cfg ls) p, Ccp.TreeStored.link_toT]
+
+/-- Every stored child list is in strictly ascending line order (hence duplicate free). -/
+theorem stored_children_ascending (cfg : Cfg) (ls : List Str) (p : Nat) :
+    ((Ccp.TreeStored.parse cfg ls).stored p).Pairwise (· < ·) := by
+  rw [(stored_children_eq_derived cfg ls).1 p]
+  exact children_sorted _ _
+
+/-- A line that has a parent is stored in exactly one list — its parent's — exactly once,
+and exactly once in all stored lists taken together. -/
+theorem stored_child_exactly_once (cfg : Cfg) (ls : List Str) (j : Nat)
+    (hj : j < (parse cfg ls).size) (hne : parentOf (parse cfg ls) j ≠ j) :
+    (∀ i, j ∈ (Ccp.TreeStored.parse cfg ls).stored i ↔ i = parentOf (parse cfg ls) j) ∧
+    ((Ccp.TreeStored.parse cfg ls).stored (parentOf (parse cfg ls) j)).count j = 1 ∧
+    (Ccp.TreeStored.parse cfg ls).children.flatten.count j = 1 := by
+  have h := child_in_exactly_one_list (parse cfg ls) j hj hne
+  refine ⟨fun i => ?_, ?_, ?_⟩
+  · rw [(stored_children_eq_derived cfg ls).1 i]; exact h.1 i
+  · rw [(stored_children_eq_derived cfg ls).1]; exact h.2
+  · rw [Ccp.TreeStored.flatten_count (Ccp.TreeStored.goodS_parse cfg ls) j, Ccp.TreeStored.parse_toT]
+    simp [hj, hne]
+
+/-- A root is stored in no list at all; neither is a line number outside the config. -/
+theorem stored_root_in_no_list (cfg : Cfg) (ls : List Str) (j : Nat)
+    (hr : parentOf (parse cfg ls) j = j) :
+    (∀ i, j ∉ (Ccp.TreeStored.parse cfg ls).stored i) ∧
+    (Ccp.TreeStored.parse cfg ls).children.flatten.count j = 0 := by
+  constructor
+  · intro i
+    rw [(stored_children_eq_derived cfg ls).1 i]
+    exact root_in_no_list (parse cfg ls) j hr i
+  · rw [Ccp.TreeStored.flatten_count (Ccp.TreeStored.goodS_parse cfg ls) j, Ccp.TreeStored.parse_toT]
+    simp [hr]
+
+/-- **One call of `_reparent_child`.**  On ANY state whose stored lists are the derived ones
+(`GoodS`: every list strictly ascending and holding exactly the other lines that name the
+line as parent, parents not after their children), re-parenting a line `c` to an earlier line
+`p` yields again such a state, whose parents are those of the parent-only model and whose
+stored lists are the derived lists of the re-parented tree.  (This is the step the code
+before the fix of F02 violated: it appended without removing from the former parent and
+without the membership test.) -/
+theorem reparent_keeps_stored_eq_derived {s : Ccp.TreeStored.S} (h : Ccp.TreeStored.GoodS s) {p c : Nat}
+    (hc : c < s.toT.size) (hpc : p < c) :
+    Ccp.TreeStored.GoodS (Ccp.TreeStored.reparent s p c) ∧
+    (Ccp.TreeStored.reparent s p c).toT = reparent s.toT p c ∧
+    ∀ q, (Ccp.TreeStored.reparent s p c).stored q = children (reparent s.toT p c) q := by
+  have hg : Ccp.TreeStored.GoodS (Ccp.TreeStored.reparent s p c) :=
+    Ccp.TreeStored.good_reparent h hc hpc
+  exact ⟨hg, rfl, fun q => Ccp.TreeStored.stored_eq_children hg q⟩
+
+/-! ### non-vacuity: the stored lists of concrete configs -/
+
+/-- F02's witness: the indented body line ` hi` is an indentation child of the banner line
+already after pass 1 and is NOT appended a second time by the banner walk -/
+example : (Ccp.TreeStored.parse exCfg exBanner).children = [[1, 2, 3], [], [], [], [5], []] := by decide
+example : (Ccp.TreeStored.linkByIndent exCfg exBanner).children = [[1], [], [], [], [5], []] := by decide
+/-- `  y` is stored under ` x` after pass 1 and moves to the macro line; `@` (a root after
+pass 1) is appended and the list is sorted -/
+example : (Ccp.TreeStored.linkByIndent exCfg exDeep).children =
+    [[1, 4], [2], [3], [], [], [6], [7], [], [], [10], [], []] := by decide
+example : (Ccp.TreeStored.parse exCfg exDeep).children =
+    [[1, 4], [2], [3], [], [], [6, 7, 8], [], [], [], [10, 11], [], []] := by decide
+/-- hypotheses of `stored_child_exactly_once` / `stored_root_in_no_list` are satisfiable -/
+example : 1 < (parse exCfg exBanner).size ∧ parentOf (parse exCfg exBanner) 1 ≠ 1 := by decide
+example : parentOf (parse exCfg exBanner) 4 = 4 := by decide
+/-- a nested banner start takes the following lines away from the outer banner: lines 3 and 4
+change their parent twice (` b`: 2 → 0 → 2, `#`: root → 0 → 2), ` c` once (2 → 0) -/
+def exNested : List Str :=
+  ["banner motd ^".toList, "a".toList, "banner exec #".toList, " b".toList, "#".toList, " c".toList,
+   "^".toList, "d".toList]
+example : (Ccp.TreeStored.parse exCfg exNested).parents = [0, 0, 0, 2, 2, 0, 0, 7] := by decide
+example : (Ccp.TreeStored.parse exCfg exNested).children = [[1, 2, 5, 6], [], [3, 4], [], [], [], [], []] := by decide
+/-- the sort matters: ` hi` is an indentation child of the banner line after pass 1 (the blank
+line above it cannot be a parent), the banner walk then appends the blank line 1 behind it -/
+example : (Ccp.TreeStored.linkByIndent exCfg ["banner motd ^".toList, "".toList, " hi".toList, "^".toList]).children
+    = [[2], [], [], []] := by decide
+example : (Ccp.TreeStored.parse exCfg ["banner motd ^".toList, "".toList, " hi".toList, "^".toList]).children
+    = [[1, 2, 3], [], [], []] := by decide
+/-- hypotheses of `reparent_keeps_stored_eq_derived`: the state after passes 1–3 is `GoodS`,
+and re-parenting line 5 of `exDeep` (`macro name m`, a root) under line 4 is a legal call -/
+example : Ccp.TreeStored.GoodS (Ccp.TreeStored.link exCfg exDeep) ∧
+    (4 : Nat) < 5 ∧ 5 < (Ccp.TreeStored.link exCfg exDeep).toT.size :=
+  ⟨Ccp.TreeStored.goodS_link exCfg exDeep, by decide, by decide⟩
+example : (Ccp.TreeStored.reparent (Ccp.TreeStored.link exCfg exDeep) 4 5).children =
+    [[1, 4], [2], [3], [], [5], [6, 7, 8], [], [], [], [10, 11], [], []] := by decide
 /-- hypotheses of `body_line_child_of_start` / `banner_body_line_child` / `macro_body_line_child`
 are satisfiable: line 2 of `exBanner` (a blank body line) is owned by the banner start 0, line 7
 of `exDeep` (a deeper-indented macro body line) by the macro start 5 -/
